@@ -34,3 +34,18 @@ claim("C08",
       "auto-detection of the re-parsed bytes is checked by the oracle only. No axioms.",
       "Coq proof (induction over strings / attribute lists / trees, automaton argument for the regex scanner, "
       "vm_compute table obligations) + extracted-model correspondence + direct decode/re-parse/auto-detect oracle")
+
+# ---- concrete codecs (Model/Codecs.v, Proofs/CodecsProofs.v, Gen/T_Codecs.v) ----
+CHECKS["C08"]["text"] += (
+    " CONCRETE TARGETS: for ascii, iso-8859-1, windows-1252 and utf-8 the encoder is defined in Coq (inverse of the single-byte decode table generated from the running interpreter; RFC 3629) together with a strict decoder, and the "
+    "codec hypotheses are theorems (C08_concrete_codec_hypotheses: writes ASCII, decode inverts strict encode AND encode inverts strict decode; C08_codec_tables_invertible over the 256 generated entries; "
+    "C08_encodable_by_target: ascii = below 128, iso-8859-1 = below 256, utf-8 = scalar values, windows-1252 = the table's characters and none of U+0080..U+009F). Hence, for EVERY string and tree and with no hypothesis: "
+    "str.encode(target,'xmlcharrefreplace') succeeds and the bytes decode strictly in the target to the text with exactly the unrepresentable characters as decimal references (C08_concrete_encode_total; errors='replace' total too), "
+    "the three entry points never raise (C08_concrete_entry_points_never_raise), and substitute -> encode -> decode -> read back is the identity on element text and attribute values for both formatters "
+    "(C08_concrete_lossless_text/_attr/_html) whenever each character is representable in the target or lies in U+00A0..U+10FFFF (values: no surrogate / noncharacter) - for iso-8859-1 and utf-8 that is every Python str "
+    "(C08_text_ok_by_target); for ascii and windows-1252 the excluded characters are exactly the class of the open finding, and the refutation is proved for both inside Coq (C08_concrete_lossless_refuted, witness U+0096). "
+    "What no longer rests on measured codec tables: every encode()/prettify(enc)/encode_contents() call of the document runs whose target is one of these four (any spelling codecs.lookup and the model agree on) is also compared "
+    "byte for byte with Model.Codecs.c_tag_encode, which takes only the tree and the encoding NAME (~1500 calls per quick run). What still does: all other codecs (30 of the 34).")
+CHECKS["C08"]["note"] += (
+    " Concrete codecs: translator/gen_cd.py (fail-closed) generates the single-byte tables and the codec-name table; str.encode (strict / xmlcharrefreplace / replace) and bytes.decode of the Coq codecs are compared with the "
+    "interpreter on all single bytes, all 0x110000 code points (encodability), and seeded random strings incl. lone surrogates, C1 controls and noncharacters (harness/cdcodecs.py).")
